@@ -189,8 +189,20 @@ fn run(scn: &Scn, ctx: &mut Ctx) -> Result<(), Violation> {
             if let Stim::Mode(_) = st {
                 continue;
             }
+            // a stimulus must act on the machine alone, whatever the step mode is: apply it to a twin
+            // that sits in Assembly mode and compare (CONTINUE, key presses, resets, inputs ...)
+            let mut twin = r.clone();
+            twin.set_step_mode(StepMode::Assembly);
+            st.apply(&mut twin);
             st.apply(&mut r);
             ctx.cov.fault(st.kind());
+            if !same_but_mode(&twin, &r) {
+                return Err(v(
+                    "stimulus-depends-on-step-mode",
+                    t,
+                    format!("{} applied in Assembly step mode leaves a different machine than in Real mode: {}", st.kind(), first_diff(&twin, &r)),
+                ));
+            }
         }
         if scn.only.map(|o| o == t).unwrap_or(true) {
             ctx.cov.evaluations += 1;
@@ -283,7 +295,7 @@ impl Check for C11 {
         events.sort_by_key(|e| e.0);
         Scn {
             seq: SeqScn {
-                setup: Setup { image: Image { bytes, stack, limit }, regs: Some(regs), pokes: vec![], inputs: [rng.u8(), rng.u8(), rng.u8(), rng.u8()], asm_mode: false },
+                setup: Setup { image: Image { bytes, stack, limit, keep_limit: false }, regs: Some(regs), pokes: vec![], inputs: [rng.u8(), rng.u8(), rng.u8(), rng.u8()], asm_mode: false },
                 events,
                 max_edges,
             },
